@@ -243,6 +243,11 @@ func (i *Interpreter) createDirectorRequest(ctx *context.Context, dc *value.Dire
 	if err != nil {
 		return nil, errors.WithStack(err)
 	}
+	if backend == nil {
+		return nil, errors.WithStack(ErrQuorumWeightNotReached)
+	}
+	// From here the request is processed with the backend which the director determined
+	i.ctx.Backend = backend
 	return i.createBackendRequest(ctx, backend)
 }
 
@@ -282,24 +287,29 @@ func (i *Interpreter) directorBackendRandom(dc *value.DirectorConfig) (*value.Ba
 			continue
 		}
 
-		lottery := make([]int, 1000)
-		var current int
-		for index, v := range dc.Backends {
+		// Draw a lot from total weight of healthy backends
+		var total int64
+		for _, v := range dc.Backends {
 			// Skip if backend is unhealthy
-			if !v.Backend.Healthy.Load() {
+			if !v.Backend.Healthy.Load() || v.Weight <= 0 {
 				continue
 			}
-			for i := 0; i < v.Weight; i++ {
-				lottery[current] = index
-				current++
-			}
+			total += int64(v.Weight)
+		}
+		if total <= 0 {
+			return nil, ErrQuorumWeightNotReached
 		}
 
-		rand.New(rand.NewSource(time.Now().Unix()))
-		lottery = lottery[0:current]
-		item := dc.Backends[lottery[rand.Intn(current)]]
-
-		return item.Backend, nil
+		lot := rand.Int63n(total)
+		for _, v := range dc.Backends {
+			if !v.Backend.Healthy.Load() || v.Weight <= 0 {
+				continue
+			}
+			lot -= int64(v.Weight)
+			if lot < 0 {
+				return v.Backend, nil
+			}
+		}
 	}
 
 	return nil, ErrQuorumWeightNotReached
